@@ -81,11 +81,17 @@ Keys(v)  == [i \in 1..Len(Kvs(v)) |-> Kvs(v)[i][1]]
 \* ---------------------------------------------------------------------------------------------
 IsInstant(a) == Tag(a) \in {"d", "ts", "d64"}
 IsNaT(a)     == Tag(a) = "nat"
+\* bool / int / finite float by VALUE, exactly - no tolerance: 1000000.0 # 1000001.0, 0.0 # 2^-27.  Rationals are
+\* in lowest terms with a positive denominator (Values.tla; the driver's projection float.as_integer_ratio
+\* guarantees it), so two of them are equal iff they are the same pair - which also keeps TLC's 32-bit integers
+\* out of the cross products of Values!RatEq for near-equal numbers
+NumEq(a, b)  == Rat(a) = Rat(b)
 LeafEqG(u, v, tri) ==
     LET a == Core(u)  b == Core(v) IN
     IF IsNaN(a) /\ IsNaN(b) THEN TRUE
     ELSE IF IsNaT(a) \/ IsNaT(b)
          THEN (IsNaT(a) /\ IsNaT(b)) \/ (tri /\ (IsNaN(a) \/ IsNaN(b)))
+    ELSE IF IsFinNum(a) /\ IsFinNum(b) THEN NumEq(a, b)
     ELSE IF IsInstant(a) /\ IsInstant(b)
          THEN Pay(a) = Pay(b) /\ (tri \/ (Tag(a) = "d64") = (Tag(b) = "d64"))
     ELSE PyEq(a, b)
@@ -187,6 +193,7 @@ PyEqX(u, v) ==
     IF IsLeaf(u) /\ IsLeaf(v)
     THEN LET a == Core(u)  b == Core(v) IN
          IF IsNaT(a) \/ IsNaT(b) THEN FALSE
+         ELSE IF IsFinNum(a) /\ IsFinNum(b) THEN NumEq(a, b)
          ELSE IF Tag(a) \in {"d", "ts"} /\ Tag(b) \in {"d", "ts"} THEN Pay(a) = Pay(b) ELSE PyEq(a, b)
     ELSE IF Tag(u) \in {"t", "l"} /\ Tag(v) = Tag(u)
          THEN Len(Pay(u)) = Len(Pay(v)) /\ \A i \in 1..Len(Pay(u)) : PyEqX(Pay(u)[i], Pay(v)[i])
@@ -327,6 +334,51 @@ SameRealisation(u, v) == StripC(u) = StripC(v)
 ClauseIfTC(u, v) == ClauseIfT(Norm(u), Norm(v))
 ClauseIfFC(u, v) == LET cl == ClauseIfF(Norm(u), Norm(v)) IN
                     IF cl = "copy_unequal" /\ ~SameRealisation(u, v) THEN "other_realisation_unequal" ELSE cl
+
+\* ---------------------------------------------------------------------------------------------
+\* Objects that change in place.  eq speaks of the values its operands have NOW: an object that was
+\* written to (a cell, a label, a dict entry) is simply another value of the universe, whatever was
+\* answered about it before.  The operators give the concrete descriptor of an object after a write.
+\* ---------------------------------------------------------------------------------------------
+SetAt(q, k, v) == [q EXCEPT ![k] = v]
+SetKv(kvs, k, v) == [kvs EXCEPT ![k] = <<kvs[k][1], v>>]
+DropAt(q, k) == SubSeq(q, 1, k - 1) \o SubSeq(q, k + 1, Len(q))
+MkDict(perm, kvs) == IF \A i \in 1..Len(perm) : perm[i] = i THEN VDict(kvs) ELSE VDictO(perm, kvs)
+MkSub(cls, perm, kvs) == IF \A i \in 1..Len(perm) : perm[i] = i THEN VSub(cls, kvs) ELSE VSubO(cls, perm, kvs)
+PermOf(c) == CASE Tag(c) = "mo" -> Pay(c)[1] [] Tag(c) = "Mo" -> Pay(c)[2]
+               [] Tag(c) = "m" -> [i \in 1..Len(Pay(c)) |-> i] [] Tag(c) = "M" -> [i \in 1..Len(Pay(c)[2]) |-> i]
+KvsOf(c)  == CASE Tag(c) = "mo" -> Pay(c)[2] [] Tag(c) = "Mo" -> Pay(c)[3] [] Tag(c) = "m" -> Pay(c) [] Tag(c) = "M" -> Pay(c)[2]
+ReDict(c, perm, kvs) == IF Tag(c) \in {"m", "mo"} THEN MkDict(perm, kvs) ELSE MkSub(Pay(c)[1], perm, kvs)
+NItems(c) == CASE Tag(c) \in {"t", "l"} -> Len(Pay(c))
+               [] Tag(c) \in {"m", "mo", "M", "Mo"} -> Len(KvsOf(c))
+               [] Tag(c) \in {"a", "S"} -> Len(Pay(c)[3])
+               [] Tag(c) = "F" -> Len(Pay(c)[4])
+               [] Tag(c) = "v" -> ProdSeq(VShp(c))
+               [] OTHER -> 0
+\* x[k] = v : item k of a list, the value of the k-th key (in key order) of a dict, cell k (row-major) of an
+\* array / Series / frame; a write through a view lands in its buffer
+SetItem(c, k, v) ==
+    CASE Tag(c) = "l" -> VLst(SetAt(Pay(c), k, v))
+      [] Tag(c) \in {"m", "mo", "M", "Mo"} -> ReDict(c, PermOf(c), SetKv(KvsOf(c), k, v))
+      [] Tag(c) = "a" -> VArr(Pay(c)[1], Pay(c)[2], SetAt(Pay(c)[3], k, v))
+      [] Tag(c) = "S" -> VSer(Pay(c)[1], Pay(c)[2], SetAt(Pay(c)[3], k, v))
+      [] Tag(c) = "F" -> VFrm(Pay(c)[1], Pay(c)[2], Pay(c)[3], SetAt(Pay(c)[4], k, v))
+      [] Tag(c) = "v" -> VView(VDt_(c), VBuf(c), SetAt(VBc(c), ViewPos(c)[k] + 1, v), VOff(c), VShp(c), VStr_(c))
+\* ... and what another object sees of it: a view into the same buffer sees the new cell
+SeesWrite(o, c, k, v) ==
+    IF Tag(o) = "v" /\ Tag(c) = "v" /\ VBuf(o) = VBuf(c)
+    THEN VView(VDt_(o), VBuf(o), SetAt(VBc(o), ViewPos(c)[k] + 1, v), VOff(o), VShp(o), VStr_(o)) ELSE o
+\* x.index = ... / x.columns = ... with label k replaced
+SetLabel(c, axis, k, v) ==
+    CASE Tag(c) = "S" -> VSer(Pay(c)[1], SetAt(Pay(c)[2], k, v), Pay(c)[3])
+      [] Tag(c) = "F" /\ axis = 0 -> VFrm(Pay(c)[1], SetAt(Pay(c)[2], k, v), Pay(c)[3], Pay(c)[4])
+      [] Tag(c) = "F" /\ axis = 1 -> VFrm(Pay(c)[1], Pay(c)[2], SetAt(Pay(c)[3], k, v), Pay(c)[4])
+\* d[key] = d.pop(key) for the k-th key: the same mapping, the key now inserted last
+Reinsert(c, k) == LET p == PermOf(c)  at == CHOOSE i \in 1..Len(p) : p[i] = k
+                  IN  ReDict(c, DropAt(p, at) \o <<k>>, KvsOf(c))
+\* x.append(v) / x.pop() on a list
+Appended(c, v) == VLst(Append(Pay(c), v))
+Popped(c)      == VLst(SubSeq(Pay(c), 1, Len(Pay(c)) - 1))
 
 \* ---------------------------------------------------------------------------------------------
 \* The axioms of the statement on an observed matrix  M[i][j] \in {"T", "F", other}, i, j \in 1..n,
